@@ -37,6 +37,7 @@ import time
 import uuid
 
 from lib import core
+from props import c03_exprgen, c03_scope
 
 PROPS = 'EdbVerif/Props/C03.lean'
 REQUIRED = [
@@ -484,6 +485,41 @@ class Gen:
             self.decls[m].append(f'alias {n} := count({self.q(m, tm, tn)});')
             self.feat('alias_scalar')
 
+    def gen_same_named(self):
+        """objects with the SAME names in two modules, referenced unqualified from their own module
+        inside expressions whose local names collide with them: an unqualified leftover in the stored
+        text would mean the other module's object when replayed under that module"""
+        r = self.rng
+        two = self.mods[:2] if len(self.mods) > 1 else self.mods[:1]
+        self.same_named_modules = list(two)
+        for i, m in enumerate(two):
+            extra = ' property extra -> str;' if i else ''
+            d = self.decls[m]
+            d.append(f'type Shared {{ property name -> str; property active -> bool;{extra} }}')
+            d.append(f"function shf(x: str) -> str using (x ++ '{'!' if i == 0 else '?'}');")
+            choices = [
+                ("global gsh := (with Shared := (select Shared filter .active) select count(Shared));",
+                 'with_alias_named_like_type'),
+                ("alias ASh := (with Shared := (select Shared filter .active) select Shared { Shared := .name });",
+                 'shape_element_named_like_type'),
+                ("function fsh(x: str) -> int64 using ((with Shared := (select Shared filter .name = x) "
+                 "select count(Shared)));", 'function_with_alias_named_like_type'),
+                ("global gfor := (select count((for Shared in Shared union (Shared.name))));",
+                 'for_variable_named_like_type'),
+                ("global gcnt := (with count := count(Shared) select count);", 'with_alias_named_like_std_function'),
+                ("global gshf := (with shf := shf('a') select shf);", 'with_alias_named_like_user_function'),
+                ("type SharedHolder { property tag -> str; "
+                 "property n := (with Shared := (select Shared filter .active) select count(Shared)); "
+                 "access policy ap allow all using ((with Shared := (select Shared filter .active) "
+                 "select exists Shared)); "
+                 "trigger tr after insert for each do (select count((group Shared using name := .name by name))); }",
+                 'holder_with_collisions'),
+            ]
+            for text, feat in r.sample(choices, r.randint(1, 3)):
+                d.append(text)
+                self.feat(feat)
+        self.feat('same_named_objects_in_two_modules' if len(two) > 1 else 'same_named_single_module')
+
     def generate(self):
         r = self.rng
         plan = []
@@ -499,6 +535,7 @@ class Gen:
         plan += rest
         for k in plan:
             getattr(self, 'gen_' + k)()
+        self.gen_same_named()
         if len(self.mods) > 1:
             self.feat('multi_module')
         if any('::' in m for m in self.mods):
@@ -579,6 +616,44 @@ FIXED_DDL = [
 ]
 
 
+def migration_key(R, schema, exc, case_id):
+    """`sdl-migration-fails:alias-of-policied-base:…` only for the root cause that was analysed
+    (an alias WITH A SHAPE over an object type one of whose descendants owns an access policy,
+    failing with "property 'id' does not exist"); any other failure of the migration path gets
+    `sdl-migration-other:…` so that it is reported as new."""
+    try:
+        cause = "property 'id' does not exist" in str(exc) and _alias_of_policied_base(R, schema)
+    except Exception:
+        cause = False
+    return (f'sdl-migration-fails:alias-of-policied-base:{case_id}' if cause
+            else f'sdl-migration-other:{case_id}')
+
+
+def _alias_of_policied_base(R, schema):
+    policied = set()
+    for o in user_objects(R, schema):
+        if type(o).__name__ == 'ObjectType' and not o.get_is_derived(schema):
+            if any(p.get_owned(schema) for p in o.get_access_policies(schema).objects(schema)):
+                policied.add(o)
+    if not policied:
+        return False
+    for o in user_objects(R, schema):
+        if type(o).__name__ != 'Alias':
+            continue
+        e = o.get_expr(schema)
+        if e is None or '{' not in e.text:
+            continue
+        vt = o.get_type(schema)
+        bases = set()
+        if hasattr(vt, 'get_bases'):
+            for b in vt.get_bases(schema).objects(schema):
+                bases.add(b)
+        for d in policied:
+            if any(b == d or d.issubclass(schema, b) for b in bases):
+                return True
+    return False
+
+
 def fine_compare(mout, real, detail):
     """beyond the outcome class: which objects / modules a differing rebuild has, which kind of
     error a failing one raises.  -> None | ('fine-agree'|'fine-disagree'|'fine-unknown', text)"""
@@ -603,8 +678,10 @@ def fine_compare(mout, real, detail):
         mk = {'exists': 'exists', 'unresolved': 'unresolved', 'nomodule': 'unresolved',
               'noobject': 'unresolved'}.get(mk, mk)
         if kind in ('exists', 'unresolved'):
-            return ('fine-agree', '') if mk == kind else \
-                ('fine-disagree', f'model error {mout!r}, real error {detail["detail"]["exc"]}')
+            # which error comes FIRST depends on the statement order, which the model does not mirror
+            # (e.g. same-named objects in two modules: `already exists` vs an earlier dangling reference):
+            # counted, not a disagreement
+            return ('fine-agree', '') if mk == kind else ('fine-other-first-error', '')
         return ('fine-unknown', f'real error not classified: {detail["detail"]["exc"]}')
     return None
 
@@ -630,6 +707,7 @@ class Real:
         self.s_func, self.s_types, self.s_ref, self.s_inh = s_func, s_types, s_ref, s_inh
         self.qlparser, self.qlast, self.qltracer, self.edgeql = qlparser, qlast, qltracer, edgeql
         self._sdl_prefix = None
+        self._scope_base = None
         self.std_modules = sorted(str(m.get_name(self.std)) for m in
                                   self.std.get_objects(type=s_mod.Module, exclude_global=False))
 
@@ -648,6 +726,27 @@ class Real:
             context.testmode = True
             schema = plan.apply(schema, context)
         return schema
+
+    def build_scope(self, text):
+        """c03_exprgen script: every statement is applied on top of BASE_SDL in a session whose
+        current module is the module it populates.  A statement the engine rejects is skipped and
+        returned in the second component (the unchanged tree accepts all of them)."""
+        if self._scope_base is None:
+            self._scope_base = self.load(c03_exprgen.BASE_SDL)
+        schema = self._scope_base
+        rejected = []
+        for mod, stmt_text, _p, _k in c03_exprgen.parse_script_text(text):
+            try:
+                s2 = schema
+                for stmt in self.edgeql.parse_block(stmt_text):
+                    plan = self.s_ddl.delta_from_ddl(stmt, schema=s2, modaliases={None: mod}, testmode=True)
+                    context = self.sd.CommandContext()
+                    context.testmode = True
+                    s2 = plan.apply(s2, context)
+                schema = s2
+            except Exception as e:
+                rejected.append((mod, stmt_text, f'{type(e).__name__}: {str(e)[:160]}'))
+        return schema, rejected
 
     def replay_sdl(self, text, modaliases):
         """START MIGRATION TO {text}; POPULATE MIGRATION; COMMIT MIGRATION under `modaliases`
@@ -1195,8 +1294,9 @@ def shadows(ma, modules, mentioned_heads):
     return False
 
 
-def contexts_for(rng, modules):
-    """[(tag, modaliases)]: three benign contexts + shadowing ones"""
+def contexts_for(rng, modules, same_named=()):
+    """[(tag, modaliases)]: benign contexts (incl. every current module that holds same-named
+    objects) + shadowing ones"""
     others = [m for m in modules if m != 'default']
     heads = sorted({m.split('::')[0] for m in others})
     benign = [('default-module', {None: 'default'}),
@@ -1204,6 +1304,9 @@ def contexts_for(rng, modules):
               ('unrelated-alias', {None: 'default', 'zz': (others[0] if others else 'default')})]
     if heads and rng.random() < 0.5:
         benign.append(('identity-alias', {None: 'default', heads[0]: heads[0]}))
+    for m in same_named:
+        if not any(ma == {None: m} for _, ma in benign):
+            benign.append(('module-with-same-names', {None: m}))
     hostile = []
     if heads:
         hostile.append(('alias-usermodule-to-default', {None: 'default', rng.choice(heads): 'default'}))
@@ -1335,7 +1438,17 @@ def _split(sn, name):
 def schema_cases(ctx):
     """[(tag, sdl, generator or None)]"""
     cases = [(tag, sdl, None) for tag, sdl in FIXED] + [(tag, ddl, 'ddl') for tag, ddl in FIXED_DDL]
-    n = ctx.budget(18, 220)
+    # scope-collision schemas (DDL-built under a current module, same names in two modules)
+    cases.append(('scope-known-defect', c03_exprgen.script_text(c03_exprgen.known_defect_script()), 'scope'))
+    if ctx.quick():
+        cases.append(('scope-positions',
+                      c03_exprgen.script_text(c03_exprgen.scope_script(ctx.rng, 1, split=True)), 'scope'))
+    else:
+        cases.append(('scope-all', c03_exprgen.script_text(c03_exprgen.scope_script(ctx.rng, None)), 'scope'))
+        for i in range(6):
+            cases.append((f'scope-gen{i}',
+                          c03_exprgen.script_text(c03_exprgen.scope_script(ctx.rng, 2)), 'scope'))
+    n = ctx.budget(12, 200)
     for i in range(n):
         size = ctx.rng.choice([1, 1, 2, 2, 3, 4] if ctx.quick() else [1, 2, 3, 4, 6, 8])
         sdl, g = gen_schema(ctx.rng, size)
@@ -1369,6 +1482,7 @@ def run(ctx: core.Ctx):
     fields_seen = collections.Counter()
     samples = []
     timing = collections.Counter()
+    scope_stats = collections.Counter()
 
     # ---- (a) printed-field table: real introspection vs the model's table
     table = field_table(R)
@@ -1388,7 +1502,8 @@ def run(ctx: core.Ctx):
             if d['sdl'] not in forced_ctx:
                 forced_ctx[d['sdl']] = []
                 ddl_built = d.get('build') == 'ddl' or d.get('schema') in dict(FIXED_DDL)
-                cases.append((d.get('schema', 'replay'), d['sdl'], 'ddl' if ddl_built else None))
+                kind = 'scope' if d.get('build') == 'scope' else ('ddl' if ddl_built else None)
+                cases.append((d.get('schema', 'replay'), d['sdl'], kind))
             if 'modaliases' in d:
                 ma = {(None if k == 'null' else k): v for k, v in d['modaliases'].items()}
                 if ma not in [m for _, m in forced_ctx[d['sdl']]]:
@@ -1409,6 +1524,16 @@ def run(ctx: core.Ctx):
                 orig = R.replay_ddl(sdl, {None: 'default'})
                 g = None
                 build = 'ddl'
+            elif g == 'scope':  # unqualified DDL applied under the module being populated
+                g = None
+                build = 'scope'
+                orig, rej = R.build_scope(sdl)
+                for mod_, stmt_, err_ in rej:
+                    stats['scope statement rejected by the real engine'] += 1
+                    ctx.fail(f'loader-rejects:{tag}:{digest(mod_ + stmt_)}',
+                             f'a definition the unchanged tree accepts is rejected (current module {mod_}): '
+                             f'{stmt_[:200]} -- {err_}',
+                             {'schema': tag, 'sdl': f'# module {mod_}\n{stmt_}', 'build': 'scope'}, no_input=True)
             else:
                 orig = R.load(sdl)
         except Exception as e:
@@ -1449,6 +1574,31 @@ def run(ctx: core.Ctx):
                      {'schema': tag, 'sdl': sdl})
             continue
         timing['describe'] += time.time() - t0
+
+        # ---- (a2) oracle on the text itself: every schema reference that no visible alias / variable
+        #           binds is fully qualified (independent scope analysis, c03_scope.py)
+        t0 = time.time()
+        case_id = tag if g is None else f'gen:{sdigest}'
+        scope_kinds = set()
+        for lang in ('ddl', 'sdl'):
+            try:
+                reps, sstats = c03_scope.check_text(R, texts[lang], lang)
+            except Exception as e:
+                stats[f'scope analysis impossible ({lang}): {type(e).__name__}'] += 1
+                continue
+            scope_stats.update(sstats)
+            for (cls_, fld, kind, name) in sorted(set(reps)):
+                scope_kinds.add(kind)
+                stats[f'unqualified reference in {lang} text: {kind}'] += 1
+                ctx.fail(f'unqualified:{cls_}:{fld}:{kind}:{name}:{lang}:{case_id}',
+                         f'the {lang.upper()} text of DESCRIBE contains the unqualified {kind.split("@")[0]} '
+                         f'reference {name!r} in {cls_}.{fld} that no visible alias or variable binds'
+                         + (' (an alias of that name is visible, but an alias cannot bind this position)'
+                            if kind.endswith('@alias') else '')
+                         + ': its meaning depends on the replaying session\'s current module',
+                         {'schema': tag, 'sdl': sdl, 'build': build, 'lang': lang, 'text': texts[lang][:6000]})
+        only_alias_defect = bool(scope_kinds) and all(k.endswith('@alias') for k in scope_kinds)
+        timing['scope analysis'] += time.time() - t0
 
         # ---- (b) the text is what the abstraction says: every owned object is a CREATE, every
         #          qualified name of the text is a name of the abstraction and vice versa
@@ -1495,9 +1645,14 @@ def run(ctx: core.Ctx):
             for t_, ma in (forced_ctx.get(sdl) or [('default-module', {None: 'default'})]):
                 (hostile if shadows(ma, modules, mentioned_heads) else benign).append((t_, ma))
         else:
-            benign, hostile = contexts_for(ctx.rng, modules)
+            same_named = (c03_exprgen.MODULES if build == 'scope'
+                          else getattr(g, 'same_named_modules', ()) if g is not None else ())
+            benign, hostile = contexts_for(ctx.rng, modules, same_named=same_named)
             if tag.startswith('gen') and ctx.quick():
                 hostile = [hostile[ci % len(hostile)]]      # one shadowing context per schema, kinds rotate
+            if build == 'scope' and ctx.quick():
+                benign = [b for b in benign if b[0] != 'identity-alias']
+                hostile = []
         known_migration_witness = False
         if tag in MIGRATION_WITNESSES:
             # deterministic trigger: migrating to the ORIGINAL declaration order (whether the SDL text
@@ -1506,7 +1661,7 @@ def run(ctx: core.Ctx):
                 R.replay_sdl(sdl, {None: 'default'})
             except Exception as e2:
                 known_migration_witness = True
-                ctx.fail(f'sdl-migration-fails:{tag}',
+                ctx.fail(migration_key(R, orig, e2, tag),
                          'START MIGRATION TO <schema>; POPULATE MIGRATION; COMMIT MIGRATION fails on the real '
                          'engine for a schema that apply_sdl accepts (the populated DDL script cannot be '
                          f'applied): {type(e2).__name__}: {str(e2)[:160]}',
@@ -1539,7 +1694,7 @@ def run(ctx: core.Ctx):
                         R.replay_sdl(sdl, ma)
                     except Exception as e2:
                         migration_broken = True
-                        ctx.fail(f'sdl-migration-fails:{tag}' if g is None else f'sdl-migration-fails:gen:{sdigest}',
+                        ctx.fail(migration_key(R, orig, e2, case_id),
                                  'START MIGRATION TO <schema>; POPULATE MIGRATION; COMMIT MIGRATION fails on the '
                                  'real engine for a schema that apply_sdl accepts (the populated DDL script '
                                  'cannot be applied) — with the original SDL and with the SDL text of DESCRIBE '
@@ -1557,6 +1712,12 @@ def run(ctx: core.Ctx):
                         what = (f'{lang.upper()} text of DESCRIBE does not rebuild the schema when a module '
                                 f'alias of the replaying session shadows a module name '
                                 f'({ctx_key(ma)}): {coarse}')
+                    elif only_alias_defect:
+                        key = f'unqualified-replay:{lang}:{case_id}:{ctx_key(ma)}'
+                        what = (f'{lang.upper()} text of DESCRIBE does not rebuild the schema under this '
+                                f'current module ({coarse}); the text contains unqualified names at positions '
+                                f'where a same-named alias is visible (see the unqualified:*@alias keys)')
+                        detail['skip_corr'] = True
                     else:
                         key = f'rebuild:{lang}:{tag}:{sdigest}:{ctx_key(ma)}'
                         what = f'{lang.upper()} text of DESCRIBE does not rebuild the schema: {coarse}'
@@ -1597,7 +1758,7 @@ def run(ctx: core.Ctx):
         if mout == 'bad-op':
             raise core.Infra(f'driver rejected line: {line[:300]}')
         if kind == 'D' and detail.get('skip_corr'):
-            agree['skipped (migration path broken for this schema)'] += 1
+            agree['skipped (root cause outside the model: migration path / unqualified@alias)'] += 1
         elif kind == 'D':
             mcoarse = mout.split(' ')[0]
             mcoarse = {'err': 'error'}.get(mcoarse, mcoarse)
@@ -1644,6 +1805,7 @@ def run(ctx: core.Ctx):
         'fields_with_own_values_seen': {f'{c}.{f}': n for (c, f), n in sorted(fields_seen.items())},
         'disagreements_model_vs_impl': n_dis,
         'timing_s': {k: round(v, 1) for k, v in timing.items()},
+        'text_scope_analysis': dict(scope_stats),
         'std_schema': R.env.std_info(),
         'exhaustive': False,
         'correspondence': 'real ddl_text_from_schema/sdl_text_from_schema + real apply under modaliases vs '
